@@ -11,7 +11,7 @@ COQ_CASE_TYPE = "c17case"
 COQ_AGREE = "c17_agree"
 COQ_PROP_OK = "c17_prop_ok"
 RULE = ("(a) seeded whole-system runs in which a scripted client issues in-process HTTP requests against the real Starlette app while the real control loop consumes: valid commands, bursts above the "
-        "queue size (503), unknown paths (404), wrong methods (405), status requests at random instants; (b) the status decision table exhaustively for 0-4 threads. Checked: HTTP status per request against the "
+        "queue size (503), unknown paths (404), wrong methods (405), status requests at random instants, and as many runs in which status requests are issued right behind back-to-back resume/pause commands (so that the flags change while they are read); (b) the status decision table exhaustively for 0-4 threads. Checked: HTTP status per request against the "
         "queue operation it caused, commands taken once / in acceptance order / none after shutdown (Coq monitor), every status answer equals the table applied to the flag values read during that request. "
         "Non-trivial = a run with at least one 503, one 404/405 and three executed commands; distinct = canonical JSON.")
 TRUSTED = B.TRUSTED_SYS + ["Starlette routing is exercised, not modelled (404/405 come from the real app)"]
@@ -43,9 +43,31 @@ def gen_one(rng, seed):
     return sp
 
 
+def gen_status_race(rng, seed):
+    """status requests in flight while queued commands take effect: a resume and a pause (or two of each) are accepted
+    back to back, so the control loop executes them - and the threads react - while the flags are being read"""
+    sp = B.base_spec(rng, seed)
+    sp["queue_size"] = rng.choice([2, 3, 5])
+    sp["step_dur"] = rng.choice([0, 0, 0.0005])
+    sp["train_dur"] = rng.choice([0, 0.001])
+    sp["hook_dur"] = 0
+    sp["pause_timeout"] = rng.choice([0.05, 1.0])
+    sp.pop("save_at_ticks", None)
+    cmds = [["pause", "retry"], ["sleep", rng.choice([0.002, 0.004, 0.008])]]
+    for _ in range(rng.randint(2, 5)):
+        block = rng.choice([[["resume"], ["pause"]], [["resume"], ["pause"]], [["pause"], ["resume"]], [["resume"], ["pause"], ["resume"]], [["resume"]], [["pause"]]])
+        cmds += [list(c) for c in block]
+        cmds += [["status"]] * rng.choice([1, 2, 3])
+        if rng.random() < 0.6:
+            cmds.append(["sleep", rng.choice([0.0, 0.0005, 0.002, 0.006])])
+    cmds += [["sleep", 0.004], ["shutdown", "retry"], ["status"]]
+    sp["cmds"] = cmds
+    return sp
+
+
 def gen(rng, tier):
-    n = {"quick": 250, "thorough": 8000, "search": 2000}[tier]
-    cases = [gen_one(rng, rng.randrange(10**9)) for _ in range(n)]
+    n, nr = {"quick": (250, 250), "thorough": (8000, 8000), "search": (2000, 2000)}[tier]
+    cases = [gen_one(rng, rng.randrange(10**9)) for _ in range(n)] + [gen_status_race(rng, rng.randrange(10**9)) for _ in range(nr)]
     for k in range(0, 5):
         for flags in itertools.product([False, True], repeat=k):
             for sh in (False, True):
@@ -81,6 +103,30 @@ def status_windows(obs):
             cur["answer"] = STATUS_ENUM.get(e[3])
             out.append(cur)
             cur = None
+    return out
+
+
+FLAG = {"shutdown": "FShutdown", "resume": "FResume", "paused0": "(FPaused 0)", "paused1": "(FPaused 1)"}
+ST_COQ = {1: "StActive", 2: "StPausing", 3: "StPaused", 4: "StResuming", 5: "StShuttingDown"}
+
+
+def status_events(obs):
+    """the run as the Coq oracle [truthful] sees it: every write of a controller / thread flag, and for every status request
+    its beginning, the flags it read with the values it got, and its answer"""
+    out, inside = [], False
+    for e in obs.get("trace") or []:
+        if e[1] in ("set", "clear") and e[2] in FLAG:
+            out.append(f"SWrite {FLAG[e[2]]} {cb(e[1] == 'set')}")
+        elif e[0] == "client" and e[1] == "status_b":
+            out.append("SBegin"); inside = True
+        elif e[0] == "client" and e[1] == "is_set" and inside and e[2] in FLAG:
+            out.append(f"SRead {FLAG[e[2]]} {cb(bool(e[3]))}")
+        elif e[0] == "client" and e[1] == "status_e" and inside:
+            inside = False
+            if e[3] in ST_COQ:
+                out.append(f"SEnd {ST_COQ[e[3]]}")
+            else:
+                return None          # an answer outside the table ('offline', an error): judged by http_consistent
     return out
 
 
@@ -147,7 +193,7 @@ def precheck(case, obs):
     v = B.precheck_common(case, obs)
     if v:
         return v
-    if http_consistent(obs) or instant_inconsistency(obs):
+    if http_consistent(obs):
         return {"agree": True, "prop_ok": False}
     return None
 
@@ -155,7 +201,10 @@ def precheck(case, obs):
 def coq_case(case, obs):
     if case.get("kind") == "table":
         return f"(C17Table {cb(case['shutdown'])} {cb(case['resume'])} {cl(cb(f) for f in case['flags'])} {STATUS.get(obs['status'], 'StActive')})"
-    return f"(C17Run {B.coq_sysin(case, obs)} {B.coq_trace(obs['trace'])})"
+    run = f"(C17Run {B.coq_sysin(case, obs)} {B.coq_trace(obs['trace'])})"
+    evs = status_events(obs)
+    # the second case is the status half: the Coq oracle [truthful] decides whether every answer was true at some instant
+    return [run, f"(C17Status 2 {cl('(' + e + ')' if ' ' in e else e for e in evs)})"] if evs is not None else run
 
 
 def coq_expected(case, obs):
@@ -204,10 +253,11 @@ def distribution(cases, obs):
     return d
 
 
-TECHNIQUE = "Coq simulation proof: the command-queue monitor holds on every trace accepted by the thread model M6; status table theorem; whole-system runs with an in-process HTTP client and exhaustive table rows compared inside Coq"
+TECHNIQUE = "Coq simulation proof: the command-queue monitor holds on every trace accepted by the thread model M6; status table theorem; a Coq oracle for 'the answer was true at some instant of the request' over the interleaved flag writes and reads, proved to accept every snapshot provider and to reject the recorded sequential-read histories; whole-system runs with an in-process HTTP client and exhaustive table rows compared inside Coq"
 LEVEL_TEXT = ("Machine-checked for any number of threads and queue size and every accepted trace: each accepted command is taken exactly once in acceptance order, a refused one never, nothing after a shutdown command; "
               "the status table yields 'paused' iff not shutting down, resume cleared and every flag set. Tied to /repo by runs of the real launch() with a scripted client issuing in-process ASGI requests (valid, bursts above the "
               "queue size, unknown paths, wrong methods, status) against the real Starlette app while the real control loop consumes, and by all rows of the status table for 0-4 threads on the real SystemStatusProvider.")
-LEVEL_NOTE = ("Partial for the status clause: that a status answer was true at some instant of the request is an oracle evaluated on the implementation's traces only (the real provider reads the flags non-atomically, so no theorem "
-              "of this kind holds for it: open known finding D10, see DESIGN.md 10.3); the table itself and the command-queue clause are theorems. Trusted: as C01, plus the in-process ASGI client; Starlette's routing is exercised, not modelled.")
+LEVEL_NOTE = ("Partial for the status clause: 'the answer was true at some instant of the request' is the Coq function truthful (Check/Sys.v), evaluated on the flag writes / reads / answers of every observed run; proved: it accepts every "
+              "history of a provider that takes its readings at one instant (C17_snapshot_provider_is_truthful) and rejects the history recorded on the pinned tree and a retried-pause one (C17_sequential_reads_refuted). The real provider reads the flags "
+              "one after the other, so the positive theorem does not apply to it: open known finding D10, see DESIGN.md 10.3. The table itself and the command-queue clause are theorems. Trusted: as C01, plus the in-process ASGI client; Starlette's routing is exercised, not modelled.")
 DESIGN_REF = "DESIGN.md §4 C17"
